@@ -1,15 +1,18 @@
 from common import TB_COMMON
 CONFIG = dict(
-    gens=["wire"], props_module="RepeVerif.Props.C01", namespace="Repe.C01", exes=["repe_model_wire"], leanchecker=True,
+    gens=["wire", "dispatch"], props_module="RepeVerif.Props.C01", namespace="Repe.C01", exes=["repe_model_wire", "repe_model_dispatch"], leanchecker=True,
     runs=[
         dict(name="wire", bin="fam_wire", args=["wire"], exe="repe_model_wire", profile="dev"),
         dict(name="wire-release", bin="fam_wire", args=["wire"], exe="repe_model_wire", profile="release", thorough_only=True),
+        # server-side emission routes: raw response bytes of the real Server / AsyncServer (each with and without a
+        # write timeout: different framing branches) and WebSocketServer, compared with each other and with the model
+        dict(name="dispatch", bin="fam_dispatch", args=[], exe="repe_model_dispatch", profile="dev", timeout=1500),
     ],
     trusted_base=TB_COMMON + ["Vec::resize/copy_within/copy_from_slice behave as fill/memmove/copy (std)"],
     assumptions=["header fields are within their Rust integer widths (Header.InRange) - true of every Rust value",
                  "48+|query|+|body| < 2^64 for the builder theorems"],
     manifest=dict(
         text="Lean 4 theorems over a model of header/message framing: the layout tables re-extracted from Header::encode/decode equal the REPE v1 layout (decide), encode is 48 bytes with little-endian fields at the spec offsets, decode∘encode = id for every in-range header (reserved bits, unknown format codes), one encoding, and to_vec = write_to = into_wire_bytes (every body capacity, in-place and fresh branch) = write_message_streaming; TCP echo framing = WebSocket stamping. Tied to /repo by fact extraction plus a differential run of every emission route of the real crate against the model executable and an independent layout oracle.",
-        note="Lean kernel; axioms propext/Classical.choice/Quot.sound only; extractor + harness + driver trusted; Vec primitives modelled as list operations; socket-level emission routes (client/server framing over TCP/WebSocket) are exercised by the C03/C05 families rather than here.",
+        note="Lean kernel; axioms propext/Classical.choice/Quot.sound only; extractor + harness + driver trusted; Vec primitives modelled as list operations; server-side framing over sockets is exercised by the `dispatch` family (raw responses of five real endpoints compared pairwise and with the model); client-side emission over sockets by the C04/C05 families.",
         technique="Lean 4 proof (round-trip/algebraic laws) + regenerated layout facts + differential correspondence"),
 )
